@@ -11,6 +11,8 @@
 -/
 import YalafiVerif.Model.Expander
 import YalafiVerif.Proofs.GenRepl
+import YalafiVerif.Proofs.PlainMacro
+import YalafiVerif.Generated.Init
 namespace Yalafi
 
 theorem C09_genRepl_nil (arguments : List (List Tok)) (start : Nat) :
@@ -80,5 +82,34 @@ theorem C09_genRepl_subst (args : List (List Tok)) (repl : List Tok) (start : Na
     (h : generateReplacements args repl start = some out) :
     (noAction out).map (fun t => (t.kind, t.txt)) = (noAction (substRef args repl)).map (fun t => (t.kind, t.txt)) :=
   genRepl_subst args repl start out h
+
+/-- **a user definition expands by substitution**, end to end on the filter model: for documents of
+    inert text, definitions `\\newcommand{\\name}{body}` (no parameters, inert non-empty body, name not
+    declared before) and uses `\\name` / `\\name{}`: every use of a defined name is replaced by the
+    body of the LATEST earlier definition (redefinition allowed), every character of an inserted
+    body maps to the backslash of the use (C04), text keeps its own positions, the definitions
+    leave no text (a line that holds only a definition disappears: `delLines`), a use before the
+    definition is an unknown macro and is listed; no diagnostics -/
+theorem C09_newcommand_e2e (T : PTables) (o : Options) (fs : FS) (thresh : Nat)
+    (segs : List PlainMacro.Seg) (fuel : Nat) (st1 : PState)
+    (hdefs : o.defs = []) (hextr : o.extr = []) (hrepl : o.hasRepl = false) (hunkn : o.unkn = false)
+    (hinit : initParser T fuel o (initialState T o false fs) = .ok ((), st1))
+    (hok : PlainMacro.SegsOk T st1 segs)
+    (hf : (PlainMacro.render segs).length + PlainMacro.segInserted [] segs + 5 ≤ fuel) :
+    ∃ r, tex2txt T fuel (PlainMacro.render segs) o false thresh fs = .ok r ∧
+      r.txt = (PlainMacro.delLines (PlainMacro.segMarks [] 0 segs)).map (·.1) ∧
+      r.pos = (PlainMacro.delLines (PlainMacro.segMarks [] 0 segs)).map (·.2 + 1) ∧
+      r.unknowns = (PlainMacro.segUnknowns [] segs).eraseDups ∧
+      r.diags = st1.diags ∧ r.parts = [] :=
+  PlainMacro.tex2txt_newcommand T o fs thresh segs fuel st1 hdefs hextr hrepl hunkn hinit hok hf
+
+/-- a concrete document satisfies the side conditions for the parser initialised from the tables
+    of the current /repo -/
+theorem C09_newcommand_example_current :
+    PlainMacro.segsOk Generated.theTables Generated.stDefault
+      [.defn "xx".toList "lorem ipsum".toList, .txt "\nAlpha ".toList, .use "xx".toList true, .txt " beta ".toList,
+       .use "xx".toList false, .txt ".\n".toList] = true ∧
+    PlainMacro.ncOk Generated.stDefault = true ∧ noEmptyActive Generated.theTables Generated.stDefault = true := by
+  decide +kernel
 
 end Yalafi
